@@ -4,11 +4,14 @@
 # Output: /tmp/regress_seeds.txt, one line per seed: "<seed> exit=<rc> <first fingerprint>"
 P=${1:-4}
 cd /verif
+# seeds listed in $SKIP_FILE (first column) are skipped; SKIP_ROUNDS="6 7" skips whole rounds
 : > /tmp/regress_seeds.txt
 one() {
   id=$1
   for d in seeded/$id-*; do
     s=$(basename $d)
+    [ -n "$SKIP_FILE" ] && grep -q "^$s " "$SKIP_FILE" && continue
+    skip=0; for r in $SKIP_ROUNDS; do [ "${s##*-}" = "$r" ] && skip=1; done; [ $skip = 1 ] && continue
     tools/try_seed.sh $s $id quick > /tmp/regress_$s.out 2>&1
     rc=$(sed -n 's/.*: exit \([0-9]*\)$/\1/p' /tmp/regress_$s.out | head -1)
     fp=$(grep -m1 "fingerprint:" /tmp/regress_$s.out | cut -c1-120)
